@@ -107,6 +107,20 @@ class PhasingErrors:
         )
 
 
+def allele_code(phase, other_phase, haplotype):
+    """
+    Character that represents the allele of the given haplotype in a haplotype string.
+
+    The diploid comparison works on strings over {0, 1} (switch encoding). Where both
+    phasings have the same heterozygous diploid genotype over other alleles, such as
+    1|2 and 2|1 at a multi-allelic site, the smaller allele is written as 0 and the
+    larger one as 1.
+    """
+    if len(phase) == 2 and len(set(phase)) == 2 and set(phase) == set(other_phase):
+        return "0" if phase[haplotype] == min(phase) else "1"
+    return str(phase[haplotype])
+
+
 def complement(s):
     """
     >>> complement('01100')
@@ -536,8 +550,8 @@ def compare_pair(
         phasing0 = []
         phasing1 = []
         for j in range(ploidy):
-            p0 = "".join(str(phases[0][i].phase[j]) for i in block)
-            p1 = "".join(str(phases[1][i].phase[j]) for i in block)
+            p0 = "".join(allele_code(phases[0][i].phase, phases[1][i].phase, j) for i in block)
+            p1 = "".join(allele_code(phases[1][i].phase, phases[0][i].phase, j) for i in block)
             phasing0.append(p0)
             phasing1.append(p1)
         block_positions = [sorted_variants[i].position for i in block]
@@ -555,7 +569,8 @@ def compare_pair(
             longest_block_positions = block_positions
             # TODO: extend to polyploid
             if ploidy == 2:
-                if hamming(phasing0[0], phasing1[0]) < hamming(phasing0[0], complement(phasing1[0])):
+                # (the other haplotype of the second phasing: its complement at heterozygous positions)
+                if hamming(phasing0[0], phasing1[0]) < hamming(phasing0[0], phasing1[1]):
                     longest_block_agreement = [
                         1 * (p0 == p1) for p0, p1 in zip(phasing0[0], phasing1[0])
                     ]
